@@ -79,7 +79,22 @@ fn world(tier: Tier) -> &'static World {
         for (k, (&size, &pal_n)) in TPL_SIZES.iter().flat_map(|s| TPL_PALETTES.iter().map(move |p| (s, p))).enumerate() {
             let mut rng = rp::Rng(0x7E1 + k as u64);
             let palette: Vec<u16> = (0..pal_n).map(|_| rng.next() as u16).collect();
-            let payload: Vec<u8> = (0..rp::ci8_len(size.0, size.1)).map(|_| rng.below(pal_n as u64) as u8).collect();
+            let mut payload: Vec<u8> = (0..rp::ci8_len(size.0, size.1)).map(|_| rng.below(pal_n as u64) as u8).collect();
+            if pal_n < 256 {
+                // texels of partially filled blocks that lie outside the image are not part of it:
+                // they hold a value outside the palette
+                let mut visible = vec![false; payload.len()];
+                for y in 0..size.1 {
+                    for x in 0..size.0 {
+                        visible[rp::ci8_source_index(size.0, x, y)] = true;
+                    }
+                }
+                for (i, v) in visible.iter().enumerate() {
+                    if !v {
+                        payload[i] = 0xFF;
+                    }
+                }
+            }
             let exp = rp::decode_ci8(size.0, size.1, &payload, &palette).expect("indices inside the palette");
             poolt.push(PoolTex { spec: TexSpec { name: String::new(), width: size.0, height: size.1, format: rt::TPL_CI8, payload, palette }, exp });
         }
@@ -344,6 +359,71 @@ fn judge_etcneg(w: &World, idx: u64, fam: &str, t: &mut Tally) {
     judge_conforming(c, &[tex], l, fam, idx, t);
 }
 
+/// Extra conforming files: (a) names from the shared tricky-string catalogue (CTPK names are
+/// Shift-JIS, BCH/CGFX names UTF-8 — there also astral / BOM-like names), (b) textures of
+/// DIFFERENT formats whose payload bytes are equal, stored once and shared.
+struct ExtraCase {
+    c: Container,
+    texs: Vec<PoolTex>,
+    l: Layout,
+}
+
+fn extra_cases() -> &'static Vec<ExtraCase> {
+    static E: OnceLock<Vec<ExtraCase>> = OnceLock::new();
+    E.get_or_init(|| {
+        let mut v = Vec::new();
+        let tricky = vcore::sjis::tricky_strings();
+        let mut names: Vec<String> = tricky.clone();
+        let utf8_only = ["😀.png", "é", "\u{FEFF}bom", "tex\u{301C}", "ÿ", "\u{80}", "名前/テクスチャ.bch"];
+        for (i, s) in names.drain(..).chain(utf8_only.iter().map(|s| s.to_string())).enumerate() {
+            for c in [Container::Ctpk, Container::Bch, Container::Cgfx] {
+                if c == Container::Ctpk && !vcore::sjis::lossless(&s) {
+                    continue;
+                }
+                let other = &tricky[(i + 1) % tricky.len()];
+                let texs = vec![make_3ds(i, Fmt::ALL[i % 9], SIZES[0], &s, false), make_3ds(i + 1, Fmt::ALL[(i + 4) % 9], SIZES[1], other, false), make_3ds(i + 2, Fmt::ALL[(i + 7) % 9], SIZES[0], &s, false)];
+                let layouts = match c {
+                    Container::Ctpk => rt::ctpk_layouts(),
+                    Container::Bch => rt::bch_layouts(false),
+                    _ => rt::cgfx_layouts(true),
+                };
+                v.push(ExtraCase { c, texs, l: layouts[(i * 7) % layouts.len()].clone() });
+            }
+        }
+        // same bytes, different formats (formats of equal bits per pixel), same and different sizes
+        let groups: [&[Fmt]; 2] = [&[Fmt::L8, Fmt::A8], &[Fmt::Rgba5551, Fmt::Rgb565, Fmt::Rgba4, Fmt::La8]];
+        for g in groups {
+            for (ai, &fa) in g.iter().enumerate() {
+                for (bi, &fb) in g.iter().enumerate() {
+                    if ai == bi {
+                        continue;
+                    }
+                    for (sa, sb) in [(SIZES[0], SIZES[0]), (SIZES[1], SIZES[2]), (SIZES[3], SIZES[3])] {
+                        let a = make_3ds(77, fa, sa, "first", false);
+                        let pb = a.spec.payload.clone();
+                        let eb = rp::decode_3ds(fb, sb.0, sb.1, &pb).expect("same byte size").px;
+                        let b = PoolTex { spec: TexSpec { name: "second".into(), width: sb.0, height: sb.1, format: fb.code(), payload: pb, palette: vec![] }, exp: eb };
+                        let a2 = make_3ds(77, fa, sa, "third", false);
+                        for c in [Container::Ctpk, Container::Bch, Container::Cgfx] {
+                            for flags in [rt::FLAG_SHARE_PAYLOADS, rt::FLAG_SHARE_PAYLOADS | rt::FLAG_REV_PAYLOADS | rt::FLAG_REV_RECORDS, rt::FLAG_SHARE_PAYLOADS | rt::FLAG_INNER_GAPS] {
+                                let base = match c {
+                                    Container::Ctpk => rt::ctpk_layouts()[0].clone(),
+                                    Container::Bch => rt::bch_layouts(false)[0].clone(),
+                                    _ => rt::cgfx_layouts(true)[0].clone(),
+                                };
+                                let l = Layout { flags, ..base };
+                                let texs = vec![PoolTex { spec: a.spec.clone(), exp: a.exp.clone() }, PoolTex { spec: b.spec.clone(), exp: b.exp.clone() }, PoolTex { spec: a2.spec.clone(), exp: a2.exp.clone() }];
+                                v.push(ExtraCase { c, texs, l });
+                            }
+                        }
+                    }
+                }
+            }
+        }
+        v
+    })
+}
+
 fn in_process_families(tier: Tier, checked: bool) -> Vec<(String, u64)> {
     let w = world(tier);
     let mut v = Vec::new();
@@ -357,6 +437,7 @@ fn in_process_families(tier: Tier, checked: bool) -> Vec<(String, u64)> {
         v.push(("cgfx-backward".to_string(), (w.lists3.len() * w.cgfx_backward.len()) as u64));
     }
     v.push(("etcneg".to_string(), 6));
+    v.push(("extra".to_string(), extra_cases().len() as u64));
     // state carried between calls: every 97th conforming file read right after a fixed series of failing calls
     for c in Container::ALL {
         v.push((format!("poisoned-{}", c.name()), ((w.lists(c).len() * w.layouts(c).len()) / 97) as u64));
@@ -402,6 +483,11 @@ fn run_case(tier: Tier, fam: &str, idx: u64, t: &mut Tally) {
         observe_backward(w, idx, t);
     } else if fam == "etcneg" {
         judge_etcneg(w, idx, fam, t);
+    } else if fam == "extra" {
+        if let Some(e) = extra_cases().get(idx as usize) {
+            let refs: Vec<&PoolTex> = e.texs.iter().collect();
+            judge_conforming(e.c, &refs, &e.l, fam, idx, t);
+        }
     }
 }
 
